@@ -932,11 +932,18 @@ func (g *c16Gen) line(etyp, ltyp, payload string, density int, etxAt int) c16Wan
 	return want
 }
 
+// c16ForceFull (set by the single-threaded generator loop) makes the next payload an
+// incompressible one of exactly maxRaw bytes: base64 of ~4 KiB for maxRaw = 3000.
+var c16ForceFull bool
+
 func c16RandPayload(rng *rand.Rand, maxRaw int) string {
 	n := rng.Intn(maxRaw + 1)
+	if c16ForceFull {
+		n = maxRaw
+	}
 	raw := make([]byte, n)
 	rng.Read(raw)
-	if rng.Intn(4) == 0 { // compressible
+	if rng.Intn(4) == 0 && !c16ForceFull { // compressible
 		for i := range raw {
 			raw[i] = "aab"[rng.Intn(3)]
 		}
@@ -952,13 +959,17 @@ func c16RandCase(rng *rand.Rand, maxRaw int) *c16Case {
 	c := &c16Case{Mode: mode, Etyp: c16Ints(etyp)}
 	nlines := 1 + rng.Intn(3)
 	density := []int{0, 1, 3, 10, 30}[rng.Intn(5)]
+	if maxRaw >= 300 { // long payloads: one line, moderate density (keeps the stream below ~10 KiB)
+		nlines = 1
+		density = []int{0, 1, 3, 8}[rng.Intn(4)]
+	}
 	for k := 0; k < nlines; k++ {
 		ltyp := etyp
 		if rng.Intn(8) == 0 {
 			ltyp = []string{"FAIL", "fail", "EXIT", "SUCC", "DATA"}[rng.Intn(5)]
 		}
 		var payload string
-		if rng.Intn(5) == 0 {
+		if rng.Intn(5) == 0 && !c16ForceFull {
 			payload = fmt.Sprint(rng.Int63n(1 << 40))
 		} else {
 			payload = c16RandPayload(rng, maxRaw)
